@@ -121,6 +121,9 @@ RetViol(e) ==
                       \cup (IF e.err THEN {} ELSE Check(x.prop, "value-equals-exact-evaluation-of-specified-formula", Has(e, "floatOK") /\ e.floatOK))
                  ELSE {})
                 \cup (IF Has(x, "reqs") THEN Check(x.prop, "requests-as-specified", reqs = x.reqs) ELSE {})
+                \* C03's last clause: inside a session the decrypted payloads are exactly the commands the caller asked for
+                \cup (IF Has(x, "reqs") /\ InSess /\ ~(Has(x, "sessionless") /\ x.sessionless) /\ x.prop = "C06"
+                      THEN Check("C03", "decrypted-payloads-are-exactly-the-commands-asked-for", reqs = x.reqs) ELSE {})
                 \cup (IF Has(x, "maxreqs") THEN Check(x.prop, "terminates-within-specified-requests", Len(reqs) <= x.maxreqs) ELSE {}))
 
 NewViol == LET e == Ev IN
